@@ -36,13 +36,17 @@ def gen_programs(prop, seed, n, tier, outfile, profile="sweep_profile"):
         if h in seen:
             return
         seen.add(h)
-        H = run_case(case, hooks=getattr(mod, "hooks", None))
-        if H.verdict != "quiescent":
-            return
-        D = H.decisions
-        if D < 5 or D > 700:
-            return
-        out.append({"case": case, "decisions": D})
+        ds = {}
+        for mode, sched in MODES.items():
+            k = dict(case)
+            k["schedule"] = dict(sched)
+            H = run_case(k, hooks=getattr(mod, "hooks", None))
+            if H.verdict != "quiescent":
+                return
+            if H.decisions < 5 or H.decisions > 900:
+                return
+            ds[mode] = H.decisions
+        out.append({"case": case, "decisions": ds})
 
     t()
     with open(outfile, "w") as fh:
@@ -51,7 +55,14 @@ def gen_programs(prop, seed, n, tier, outfile, profile="sweep_profile"):
     return acc
 
 
-def sweep_chunk(prop, case, d_lo, d_hi, cs):
+# pb: force alternative action c at decision d; pctA/pctB: at decision d the running task drops below every other
+# priority (it only resumes once everything else is blocked) - base priorities favour low / high task ids respectively
+MODES = {"pb": {"kind": "pb", "preempt": []},
+         "pctA": {"kind": "pct", "prios": [5], "changes": []},
+         "pctB": {"kind": "pct", "prios": [1, 3, 5, 7, 9, 11, 13, 15, 17, 19, 21, 23], "changes": []}}
+
+
+def sweep_chunk(prop, case, d_lo, d_hi, cs, mode="pb"):
     from sim import patches, program
     mod = importlib.import_module(f"props.{prop.lower()}")
     patches.install()
@@ -60,9 +71,12 @@ def sweep_chunk(prop, case, d_lo, d_hi, cs):
     run_case = getattr(mod, "run_case", program.run_case)
     findings_sim.FORCED = case.get("_exclusions")
     for d in range(d_lo, d_hi):
-        for c in cs:
+        for c in (cs if mode == "pb" else [0]):
             k = dict(case)
-            k["schedule"] = {"kind": "pb", "preempt": [[d, c]]}
+            if mode == "pb":
+                k["schedule"] = {"kind": "pb", "preempt": [[d, c]]}
+            else:
+                k["schedule"] = dict(MODES[mode], changes=[d])
             H = run_case(k, hooks=getattr(mod, "hooks", None))
             if H.verdict == "harness":
                 raise HarnessError(f"SIM harness verdict in sweep: {H.verdict_detail}")
@@ -72,7 +86,7 @@ def sweep_chunk(prop, case, d_lo, d_hi, cs):
                 acc.evaluations += 1
                 continue
             summ = {"sweep": True, "config": k.get("config"), "program": k.get("program", k.get("actors")), "faults": k.get("faults"),
-                    "preempt": [d, c]}
+                    "mode": mode, "preempt": [d, c]}
             acc.case(summ, H.preemptions >= 1)
             for v in mod.oracle(H):
                 v["predicates"] = mod.predicates(H, v) if hasattr(mod, "predicates") else []
@@ -102,13 +116,15 @@ def run_sweep(prop, tier, seed, n_programs, cs=(1, 2, 3), chunk=60):
             pass
     jobs = []
     for p in progs:
-        D = p["decisions"]
-        for lo in range(0, D, chunk):
-            jobs.append({"module": "sim.sweep", "func": "sweep_chunk",
-                         "kwargs": {"prop": prop, "case": p["case"], "d_lo": lo, "d_hi": min(D, lo + chunk), "cs": list(cs)}})
+        for mode, D in p["decisions"].items():
+            ch = chunk if mode == "pb" else chunk * 3
+            for lo in range(0, D, ch):
+                jobs.append({"module": "sim.sweep", "func": "sweep_chunk",
+                             "kwargs": {"prop": prop, "case": p["case"], "d_lo": lo, "d_hi": min(D, lo + ch), "cs": list(cs),
+                                        "mode": mode}})
     a2, not_run = run_jobs(jobs, tag=f"sweep-{prop}", timeout_s=1500 if tier == "quick" else 7200)
     acc.merge(a2, sample_cap=8)
-    acc.count("sweep_decision_points", sum(p["decisions"] for p in progs))
+    acc.count("sweep_decision_points", sum(sum(p["decisions"].values()) for p in progs))
     if not_run:
         acc.notes.append(f"sweep: {not_run} chunk processes hit the wall-clock cap")
     # keep one violation per program at most (the first found)
